@@ -101,6 +101,21 @@ func (app *App) quoteString(raw string) string {
 	return quoted
 }
 
+// removeHeaderNewLines replaces CR and LF by a space (as fasthttp's Header.Set does), so that a
+// value handed to a response helper can never start a new header line or the body.
+func removeHeaderNewLines(s string) string {
+	if strings.IndexByte(s, '\r') == -1 && strings.IndexByte(s, '\n') == -1 {
+		return s
+	}
+	b := []byte(s)
+	for i := range b {
+		if b[i] == '\r' || b[i] == '\n' {
+			b[i] = ' '
+		}
+	}
+	return string(b)
+}
+
 // Scan stack if other methods match the request
 func (app *App) methodExist(c *DefaultCtx) bool {
 	var exists bool
